@@ -180,7 +180,7 @@ def run(tier, seed, replay=None):
     evals = 0
     skipped_jump = 0
     nontriv = set()
-    corr_bad = None
+    corr_bad = C.Corr()
     samples = []
     for qi, q in enumerate(Q):
         s, a = q['snap'], q['alpha']
@@ -200,18 +200,18 @@ def run(tier, seed, replay=None):
                 'params': [str(x) for x in q['tuples'][0]]}
         # L1 comparison
         if q['err'] is not None:
-            if model_err is None and corr_bad is None:
-                corr_bad = dict(case, what='L1: implementation raises %s, model returns values' % q['err'])
+            if model_err is None and corr_bad.open():
+                corr_bad += dict(case, what='L1: implementation raises %s, model returns values' % q['err'])
         else:
             if model_err is not None:
-                if corr_bad is None:
-                    corr_bad = dict(case, what='L1: model raises %s, implementation returns values' % model_err)
+                if corr_bad.open():
+                    corr_bad += dict(case, what='L1: model raises %s, implementation returns values' % model_err)
             else:
                 for ti in range(n):
                     mv = model_vals[ti]
                     sc = max([1.0] + [abs(float(x)) for x in mv])
-                    if not all(C.close(q['impl'][ti][c], mv[c], sc) for c in range(dim)) and corr_bad is None:
-                        corr_bad = dict(case, what='L1: derivative differs from model', params=[str(x) for x in q['tuples'][ti]],
+                    if not all(C.close(q['impl'][ti][c], mv[c], sc) for c in range(dim)) and corr_bad.open():
+                        corr_bad += dict(case, what='L1: derivative differs from model', params=[str(x) for x in q['tuples'][ti]],
                                         impl=[float(x) for x in q['impl'][ti]], model=[str(x) for x in mv])
         # L2: the statement
         start, betas = l2idx[qi]
@@ -305,7 +305,7 @@ def run(tier, seed, replay=None):
                                    'normal': nm.tolist(), 'expected': (cr / np.linalg.norm(cr)).tolist()})
         except Exception as e:  # noqa
             V.failure({'what': 'tangent/normal raised %s' % type(e).__name__, 'obj': O.spec_json(spec), 'params': tp, 'msg': str(e)})
-    rc = V.finish(l0, corr_bad if not V.fail else None)
+    rc = V.finish(l0, corr_bad)
     C.write_evidence(PID, tier, seed, l0, {
         'evaluations': evals + nds + ntn, 'distinct_nontrivial': len(nontriv),
         'rule': 'random objects (pardim 1-3, rational 40%); multi-indices with per-direction orders from {0,1,2,3,p+1}; d spelled as int/tuple/list; '
